@@ -131,8 +131,57 @@ fn run_ops(c: &OpCase) -> Verdict {
     if e.is_one() {
         ensure!(want.is_one(), "ops:is_one", "is_one() holds for an Esop denoting {}", want.short());
     }
+    // the same object as both operands: e ^ e is constant zero
+    {
+        let r = lib!("Esop ^ with the same object on both sides", &e ^ &e);
+        for m in 0..want.size() {
+            ensure!(!r.value(m), "ops:alias", "e ^ e with the same object e = `{:?}` on both sides has value({}) = true", c.e, m);
+        }
+    }
     let has_op = matches!(c.e, XB::Xor(..) | XB::Not(..));
     pass(has_op && !want.is_const(), vec![format!("n:{}", n), format!("cubes:{}", std::cmp::min(e.num_cubes(), 16))])
+}
+
+#[derive(Clone, Debug, Hash, Serialize, Deserialize)]
+pub struct WideCase {
+    pub n: usize,
+    pub e: XB,
+    pub ms: Vec<u32>,
+}
+
+fn strategy_wide(_t: Tier) -> BoxedStrategy<WideCase> {
+    prop_oneof![3 => 11usize..=31, 2 => Just(32usize), 1 => 16usize..=18]
+        .prop_flat_map(|n| (arb_xb_wide(n), proptest::collection::vec(any::<u32>(), 8..=16)).prop_map(move |(e, ms)| WideCase { n, e, ms }))
+        .boxed()
+}
+
+fn run_wide(c: &WideCase) -> Verdict {
+    let n = c.n;
+    let mut leaf = Vec::new();
+    c.e.leaf_cubes(&mut leaf);
+    let ms = wide_assignments(n, &c.ms, &leaf);
+    let e = lib!(format!("Esop construction over {} variables ({:?})", n, c.e), c.e.build(n));
+    ensure!(e.num_vars() == n, "wide:num_vars", "Esop has {} variables, built for {}", e.num_vars(), n);
+    let cubes: Vec<CubeM> = e.cubes().iter().map(CubeM::of).collect();
+    for &m in &ms {
+        let want = c.e.eval_at(m);
+        let got = lib!("Esop::value", e.value(m as usize));
+        ensure!(got == want, "wide:value", "Esop `{:?}` over {} variables: value({:#x}) = {} but the XOR of its cubes / the operator definition gives {}", c.e, n, m, got, want);
+        let by_cubes = cubes.iter().fold(false, |acc, q| acc ^ q.value(m));
+        ensure!(by_cubes == want, "wide:cubes", "Esop `{:?}` over {} variables: cubes() evaluate to {} on {:#x}, expected {}", c.e, n, by_cubes, m, want);
+    }
+    for q in &cubes {
+        ensure!(!q.max_var().map(|v| v >= n).unwrap_or(false), "wide:var-range", "Esop `{:?}`: cube {} has a variable >= {}", c.e, q.show(), n);
+    }
+    if e.is_zero() {
+        ensure!(ms.iter().all(|m| !c.e.eval_at(*m)), "wide:is_zero", "is_zero() holds for the Esop `{:?}` which is not constant zero", c.e);
+    }
+    if e.is_one() {
+        ensure!(ms.iter().all(|m| c.e.eval_at(*m)), "wide:is_one", "is_one() holds for the Esop `{:?}` which is not constant one", c.e);
+    }
+    let has_op = matches!(c.e, XB::Xor(..) | XB::Not(..));
+    let hi = leaf.iter().any(|l| l.max_var().map(|v| v >= 16).unwrap_or(false));
+    pass(has_op && hi, vec![format!("n:{}", if n == 32 { "32" } else if n > 16 { "17-31" } else { "11-16" })])
 }
 
 pub fn def() -> PropDef {
@@ -143,6 +192,7 @@ pub fn def() -> PropDef {
         subs: vec![
             Box::new(Sub { name: "anf", rule: "see property rule", strategy, cases: (50_000, 1_000_000), exhaustive: Some(enumerate), exhaustive_note: "all functions of n<=3 (quick) / n<=4 (thorough)", run }),
             Box::new(Sub { name: "ops", rule: "see property rule", strategy: strategy_ops, cases: (100_000, 2_000_000), exhaustive: None, exhaustive_note: "", run: run_ops }),
+            Box::new(Sub { name: "wide", rule: "n in 11..=32 (32 and 16..18 over-represented): Esop descriptions (literals, from_cubes of mixed-polarity cube lists with variables biased to the top of the range and to 15/16/17/30/31, ^ in 4 forms, ! in 2 forms); value(m) and the XOR of cubes() read back must equal the description on generated 32-bit assignments, the constant / alternating ones and a satisfying assignment plus a near miss per cube; no variable >= n; is_zero/is_one only if every sampled value agrees. Non-trivial = an operator at the root and a literal of a variable >= 16.", strategy: strategy_wide, cases: (60_000, 1_500_000), exhaustive: None, exhaustive_note: "", run: run_wide }),
         ],
     }
 }
